@@ -2,7 +2,9 @@
 import ast
 import datetime
 import inspect
+import os
 import re
+import time
 import types
 from decimal import Decimal
 
@@ -46,13 +48,16 @@ META = dict(
     stubs=["aiohttp.ClientSession -> recording stub passed through the clients' own session= parameter",
            "time.time in the client modules -> fixed value", "hmac left real (signature value irrelevant here)",
            "datetime.datetime.fromtimestamp inside the timestamp helpers -> exact real-arithmetic model (for the "
-           "over-the-reals clause); the binary64 clause models CPython's _PyTime rounding (round half even) in integers"],
+           "over-the-reals clause); the binary64 clause models CPython's _PyTime rounding (round half even) in integers",
+           "the process's local time zone is a solver choice among the POSIX zones UTC0, JST-9, ART3 (TZ + time.tzset "
+           "in both modes; fromtimestamp without tz is modelled as the naive local reading)"],
     assumptions=["str(Decimal) follows the General Decimal Arithmetic to-scientific-string rule (validated against the "
                  "real decimal module in the self-test of this check)", "the stub's canned JSON responses"],
     outside=["order-status tables (finite look-ups: every documented status is asserted to map to a bool, concretely)",
              "JSON parsing (C accelerator)", "wrapper classes other than binance Trade / OrderInfo / Balance and bitstamp "
              "OrderStatus / OrderInfo / Balance (the remaining ones are single Decimal(str) / timestamp accessors)"],
-    required_covers=["a decimal parameter was transmitted", "an unset option was omitted", "timestamp kernel decided"],
+    required_covers=["a decimal parameter was transmitted", "an unset option was omitted", "timestamp kernel decided",
+                     "the local time zone was not UTC"],
 )
 
 EXPONENTS = list(range(-14, 5))
@@ -271,6 +276,44 @@ Y2010 = int((datetime.datetime(2010, 1, 1, tzinfo=UTC) - EPOCH1970).total_second
 Y2100 = int((datetime.datetime(2100, 1, 1, tzinfo=UTC) - EPOCH1970).total_seconds())
 
 
+LOCAL_ZONES = ["UTC0", "JST-9", "ART3"]      # POSIX TZ strings (no tz database needed): UTC, UTC+9, UTC-3
+
+
+class _TZRestore:
+    """entry for ctx.patches that puts the process's local time zone back at the end of the path"""
+    def __setattr__(self, attr, old):
+        if old is None:
+            os.environ.pop("TZ", None)
+        else:
+            os.environ["TZ"] = old
+        time.tzset()
+
+
+def _local_zone(ctx):
+    """The process's local time zone is part of the environment: a solver choice (both modes set the real TZ)."""
+    tz = LOCAL_ZONES[ctx.choice("local_time_zone", len(LOCAL_ZONES))]
+    ctx.patches.append((_TZRestore(), "tz", os.environ.get("TZ")))
+    os.environ["TZ"] = tz
+    time.tzset()
+    if tz != "UTC0":
+        ctx.cover("the local time zone was not UTC")
+    return tz
+
+
+class _LocalNaive(SymDT):
+    """what datetime.fromtimestamp(x) without tz returns: the local wall-clock reading, naive.  The proxy's value is the
+    true instant; labelling the reading as UTC (replace(tzinfo=utc)) shifts it by the zone's offset, astimezone does not."""
+    def replace(self, **kw):
+        if set(kw) <= {"tzinfo"} and kw.get("tzinfo") is not None:
+            off = time.localtime(86400 * 365 * 40).tm_gmtoff        # fixed-offset zones only (LOCAL_ZONES)
+            off += int(kw["tzinfo"].utcoffset(None).total_seconds()) * -1
+            return SymDT(L.add(self._e, Lin({}, off * 10 ** 6)))
+        return SymDT.replace(self, **kw)
+
+    def astimezone(self, tz=None):
+        return SymDT(self._e)
+
+
 class _RealDateTime:
     """stand-in for the name `datetime.datetime` in the helper modules: fromtimestamp over the reals"""
     @staticmethod
@@ -282,7 +325,10 @@ class _RealDateTime:
             n, den = x.q
             us = SymDec(n, 0, 1 if den == 1 else Lin({}, den)) * Decimal(10 ** 6)
             q = us.quantize(Decimal(1), rounding="ROUND_HALF_EVEN")
-            return SymDT(L.add(q.c, Lin({}, int((EPOCH1970 - __import__("symx").EPOCH).total_seconds()) * 10 ** 6)))
+            e = L.add(q.c, Lin({}, int((EPOCH1970 - __import__("symx").EPOCH).total_seconds()) * 10 ** 6))
+            if tz is None:
+                return _LocalNaive(e)
+            return SymDT(e)
         return datetime.datetime.fromtimestamp(x, tz=tz)
 
     @staticmethod
@@ -290,9 +336,14 @@ class _RealDateTime:
         r = _RealDateTime.fromtimestamp(x, tz=UTC)
         return r if isinstance(r, SymDT) else r.replace(tzinfo=None)
 
+    @staticmethod
+    def now(tz=None):
+        return datetime.datetime.now(tz=tz)
+
 
 def timestamps_reals(ctx, which="binance_ms"):
     """decoded instant == the integer timestamp, exactly, treating floats as reals"""
+    _local_zone(ctx)
     fake = types.SimpleNamespace(datetime=_RealDateTime, timezone=datetime.timezone, timedelta=datetime.timedelta)
     if which == "binance_ms":
         t = ctx.int("timestamp_ms", Y2010 * 1000, Y2100 * 1000)
